@@ -87,6 +87,10 @@ Inductive c04case :=
 (* the printed text: annotations of the in-memory fields, annotations of the
    fields after print + parse, and whether the two reflected schemas were equal *)
 | C04Text (mem txt : list fout) (same_schema : bool)
+(* the head of a root schema: declared kind / name / description; name, leading comment
+   and (j5.ext.v1.message) arm of the compiled message; kind / name / description reflected *)
+| C04Root (k : rkind) (name desc : str) (obs_name obs_comment : str) (obs_opt : option rkind)
+          (refl : option (rkind * str * str))
 (* the decoder of C04_text_concrete: a compiled field as a descriptor of the file
    model of family tool (label, type, names, comment, option trees), and the
    annotation record this harness dumps for the same field *)
@@ -136,6 +140,19 @@ Definition c04_check (c : c04case) : bool :=
       (* the text clause: where the reader's view of the fields is the same, the
          reflected schemas are (C04_text_clause) *)
       implb (list_eqb (fun a b => fout_eqb (c04_proj a) (c04_proj b)) mem txt) same_schema
+  | C04Root k name desc obs_name obs_comment obs_opt refl =>
+      (* write_root / read_root / norm_root on an object without properties: the head only *)
+      let rk_eqb (a b : rkind) := match a, b with RObject, RObject | ROneof, ROneof => true | _, _ => false end in
+      match write_root (EE [] None []) (RD k name desc []) with
+      | Ok o => str_eqb (ro_name o) obs_name && str_eqb (ro_comment o) obs_comment
+                && match ro_msgopt o, obs_opt with Some a, Some b => rk_eqb a b | None, None => true | _, _ => false end
+      | _ => false
+      end &&
+      match read_root (EE [] None []) (RO obs_name obs_comment obs_opt []), refl with
+      | Ok r, Some (k', n', d') => rk_eqb (rr_kind r) k' && str_eqb (rr_name r) n' && str_eqb (rr_desc r) d'
+      | Err _, None => true
+      | _, _ => false
+      end
   | C04View df fo =>
       fout_eqb (c04_proj (RulesView.view_field df)) (c04_proj (drop_map_key fo))
   | C04Enum e obs refl =>
